@@ -133,21 +133,35 @@ def rule_getparams(rep, repo):
   # check: a keyword item followed by a positional item must raise, the
   # reverse order must not.  (The probes are the two orderings of the rule,
   # not test inputs for the quantizers.)
-  outcomes = {}
-  for text in ("(a=1,2)", "(2,a=1)", "(a=1,b=2,3)", "(1,2,a=3)"):
-    pe = PE(repo)
-    f = pe.lookup_global("GetParams", sm)
-    try:
-      pe.call(f, [text], {})
-      outcomes[text] = "ok"
-    except PyRaise as e:
-      outcomes[text] = e.exc_name
-  ok = outcomes["(a=1,2)"] != "ok" and outcomes["(a=1,b=2,3)"] != "ok" and \
-      outcomes["(2,a=1)"] == "ok" and outcomes["(1,2,a=3)"] == "ok"
-  rep.check(ok, "R2", unit, "positional-after-keyword-not-rejected",
-            "GetParams on the two orderings: %s (keyword-then-positional "
-            "must raise, positional-then-keyword must not)" % outcomes,
-            loc=sm.loc(fn))
+  # every arrangement of up to five positional (p) / keyword (k) items: the
+  # list is rejected exactly when some positional item follows a keyword
+  import itertools
+  wrong = []
+  n = 0
+  for length in range(1, 6):
+    for kinds in itertools.product("pk", repeat=length):
+      items = []
+      for i, kd in enumerate(kinds):
+        items.append(str(i + 1) if kd == "p" else "a%d=%d" % (i, i + 1))
+      text = "(" + ",".join(items) + ")"
+      must_raise = "kp" in "".join(kinds).replace("kk", "k").replace(
+          "kk", "k") or any(kd == "p" and "k" in kinds[:i]
+                            for i, kd in enumerate(kinds))
+      pe = PE(repo)
+      f = pe.lookup_global("GetParams", sm)
+      try:
+        pe.call(f, [text], {})
+        raised = False
+      except PyRaise:
+        raised = True
+      n += 1
+      if raised != must_raise:
+        wrong.append("%s %s" % (text, "rejected" if raised else "accepted"))
+  rep.check(not wrong, "R2", unit, "positional-after-keyword-not-rejected",
+            "GetParams on %d arrangements of positional / keyword items: %s "
+            "(a list must be rejected exactly when a positional item "
+            "follows a keyword item)" % (n, wrong[:6]), loc=sm.loc(fn),
+            observed="; ".join(wrong[:6]))
   # structural: the raise is inside a loop over items that precedes the
   # return
   raises = [n for n in ast.walk(fn) if isinstance(n, ast.Raise)]
